@@ -255,6 +255,7 @@ public:
     my_node(n) {}
 
     d1::task* execute(d1::execution_data& ed) override {
+        __TBB_VERIF_POINT(vp_fg_forwarder, &my_node, 0);
         graph_task* next_task = my_node.forward_task();
         if (SUCCESSFULLY_ENQUEUED == next_task)
             next_task = nullptr;
